@@ -347,10 +347,8 @@ Fixpoint de (f : nat) (E : env) (u : bool) (h : host) (lc : N -> option N) (e w 
               dom lr <- liftR (read_u64 (snd pr));
               dom mr <- liftR (take_bytes (fst lr) (snd lr));
               dom _ <- add_cost u (sat (sat (principal_cost (fst pr) + fst lr) + 2));
-              match h with
-              | HV => if utf8_valid (fst mr) then ret (VFunc (fst pr) (fst mr), snd mr) else failM EMal
-              | HI => ret (VFunc (fst pr) (fst mr), snd mr)
-              end
+              (* the method name is validated by the deserializer itself: also when the reference is skipped *)
+              if utf8_valid (fst mr) then ret (VFunc (fst pr) (fst mr), snd mr) else failM EMal
           | _ => failM EMal
           end
         else failM ESub
